@@ -211,7 +211,7 @@ func Schema(r *core.Rand, o *GenOpts) []*m.Item {
 		if r.Chance(1, 4) {
 			it.Locations = append([]string{}, AllLocations...)
 		}
-		it.Args = g.argDefs(r.Intn(3), false)
+		it.Args = g.argDefs(r.Intn(4), false)
 		g.dirDefs = append(g.dirDefs, it)
 		g.items["@"+d] = it
 		g.order = append(g.order, it)
@@ -293,10 +293,25 @@ func Schema(r *core.Rand, o *GenOpts) []*m.Item {
 	if !schemaBlock && (len(extOps) > 0 || r.Chance(1, 6)) {
 		ext := &m.Item{Kind: "schema", Extend: true, OpTypes: extOps}
 		ext.Dirs = g.maybeDirs("SCHEMA", nil, "")
+		if len(ext.Dirs) == 0 {
+			if d, ok := g.dirFor("SCHEMA", nil, ""); ok {
+				ext.Dirs = []m.Dir{d}
+			}
+		}
 		if len(ext.OpTypes) == 0 {
 			ext.NoBody = true
 		}
-		if len(ext.OpTypes) > 0 || len(ext.Dirs) > 0 {
+		if len(ext.OpTypes) > 0 && len(ext.Dirs) > 0 && r.Bool() {
+			// two extensions: one with directives only, one with the operation type, in either order
+			dirsOnly := &m.Item{Kind: "schema", Extend: true, Dirs: ext.Dirs, NoBody: true}
+			ext.Dirs = nil
+			pair := []*m.Item{dirsOnly, ext}
+			if r.Bool() {
+				pair = []*m.Item{ext, dirsOnly}
+			}
+			at := r.Intn(len(g.order) + 1)
+			g.order = append(g.order[:at], append(pair, g.order[at:]...)...)
+		} else if len(ext.OpTypes) > 0 || len(ext.Dirs) > 0 {
 			at := r.Intn(len(g.order) + 1)
 			g.order = append(g.order[:at], append([]*m.Item{ext}, g.order[at:]...)...)
 		}
